@@ -619,6 +619,20 @@ fn c03(ix: &Ix, f: &mut Findings) {
             _ => {}
         }
     }
+    // an operation returns a result; it never panics in its caller (the only documented panic is the deadlock report inside an actor hook)
+    for o in ix.ops.values() {
+        if let Some((_, msg)) = &o.panicked {
+            let scripted_unwind = msg.starts_with("scripted");
+            let deadlock_in_hook = msg.contains("Deadlock detected") && matches!(o.ctx, Ctx::Hook(..));
+            if !scripted_unwind && !deadlock_in_hook {
+                let clause = if o.kind.has_timeout() { "C10.returns" } else if o.kind == OpKind::Kill { "C06.nonblocking" } else { "C03.returns" };
+                f.v(clause, Some(o.actor), format!("{:?} uid {} (issued by {:?}) panicked in its caller instead of returning a result: {msg:?}", o.kind, o.uid, o.ctx));
+            }
+        }
+        if o.kind.is_msg() && o.closed_pos().is_some() {
+            f.o(if o.kind.has_timeout() { "C10.returns" } else { "C03.returns" });
+        }
+    }
     // completion: at the end of the history nothing is pending
     let done = ix.phases.contains_key("final") || ix.meta.mode == Mode::Mt;
     if done {
@@ -1545,6 +1559,9 @@ fn c14_15(ix: &Ix, f: &mut Findings) {
     let mut answered: BTreeSet<u64> = BTreeSet::new(); // uid whose handler exited / panicked
     let mut dead = vec![false; n];
     let mut tracked_calls = 0u64;
+    // callers that at some point had two asks in flight at once (join!/select!): the graph keeps one edge per caller,
+    // which is the documented limitation of detection, so nothing is required of their edges
+    let mut concurrent: BTreeSet<usize> = BTreeSet::new();
     for (i, e) in ix.log.iter().enumerate() {
         match &e.k {
             K::CallStart { op, actor, kind, uid, to, ctx, .. } if kind.ask_family() => {
@@ -1565,7 +1582,13 @@ fn c14_15(ix: &Ix, f: &mut Findings) {
                         Some(true)
                     }
                 };
-                let edges: Vec<(usize, usize, bool)> = live.values().filter_map(|ed| classify(ed).map(|l| (ed.caller, ed.callee, l))).collect();
+                if live.values().any(|ed| ed.caller == caller) {
+                    concurrent.insert(caller);
+                }
+                let edges: Vec<(usize, usize, bool)> = live
+                    .values()
+                    .filter_map(|ed| classify(ed).map(|l| (ed.caller, ed.callee, l && !concurrent.contains(&ed.caller))))
+                    .collect();
                 let path = |allow_grey: bool| -> Option<Vec<usize>> {
                     if caller == callee {
                         return Some(vec![caller, callee]);
@@ -1672,8 +1695,9 @@ fn c14_15(ix: &Ix, f: &mut Findings) {
                 for m in &must {
                     *by_caller.entry(m.0).or_default() += 1;
                 }
+                let conc_ids: BTreeSet<u64> = concurrent.iter().map(|c| ix.meta.ids[*c]).collect();
                 for m in &must {
-                    if by_caller[&m.0] == 1 && !got.contains(m) {
+                    if by_caller[&m.0] == 1 && !conc_ids.contains(&m.0) && !got.contains(m) {
                         f.v("C14.edge_missing", None, format!("wait-for graph at {phase} (log position {i}) lacks edge {:?} although that in-actor ask is unanswered and in flight", m));
                     }
                 }
